@@ -58,9 +58,32 @@ class CbFault(Engine):
             spec = draw(plans.specs('s0', max_classes=5))
             roots = [t for t in plans.root_types(spec)]
             root = draw(st.sampled_from(roots))
+            doc = None
+            if draw(st.integers(0, 9)) == 0:
+                # forward references: a top-level list of objects of a small hierarchy
+                # (a dataclass base and a derived class that holds a base-typed part),
+                # in which a nested object is anchored and repeated later as an item
+                bases = [c for c in spec['classes'] if c['kind'] == 'regular' and not c.get('base')
+                         and c.get('registered', True) and not c.get('extra')
+                         and not any(plans._mentions_class(q['t']) for q in c.get('params', []))]
+                free = [n for n in plans.CLASS_NAMES if n not in [c['name'] for c in spec['classes']]]
+                if bases and free:
+                    base = bases[0]
+                    base['dc'] = draw(st.booleans())
+                    pn = [n for n in ('part', 'inner', 'child')
+                          if n not in {q['n'] for q in base.get('params', [])}][0]
+                    spec['classes'].append({
+                        'name': free[0], 'kind': 'regular', 'registered': True, 'base': base['name'],
+                        'params': [{'n': pn, 't': ['cls', base['name']], 'd': None}], 'extra': False})
+                    root = ['list', ['cls', base['name']]]
+                    val = draw(plans.values(spec, root))
+                    tree = plans.apply_corruption(U.value_to_tree(spec, val),
+                                                  {'kind': 'hoist_alias', 'at': draw(st.integers(0, 40))})
+                    doc, cs = U.write_doc(tree, draw(st.sampled_from(['block', 'flow']))), [{'kind': 'hoist_alias'}]
             names = [c['name'] for c in spec['classes']]
             order = list(draw(st.permutations(names)))
-            doc, val, cs = draw(plans.doc_texts(spec, root, p_corrupt=0.3))
+            if doc is None:
+                doc, val, cs = draw(plans.doc_texts(spec, root, p_corrupt=0.3))
             source = draw(st.sampled_from(['str', 'str', 'stringio', 'bytesio']))
             if tier == 'thorough' and draw(st.integers(0, 3)) == 0:
                 variants = ALL_INIT_VARIANTS
